@@ -58,6 +58,23 @@ CLAIMED = {
          "directions through a fault-injecting message-aware relay next to the inmem proxy",
          "15 theorems (3 refutations), no axioms; TCP, net/rpc, timeouts are runtime; a retried call is delivered again (noted, at-least-once)",
          "Coq theorems (induction over attempt lists, base64 round trip) + model/implementation correspondence + content / order / failure oracles"),
+ "C12": ("Decision rule of core.fastForward / Node.fastForward modelled in Coq (CheckBlock over the signature MAP with re-spelled keys, peer-set and frame digests, "
+         "Reset outcome as data, Restore-then-check order, highest-index selection). Proved for the unchanged code: adoption => both digests match and more than "
+         "TrustCount verifying map ENTRIES of members; order-independence of the map iteration; a response refused by the checks leaves the core untouched. "
+         "The property as stated is REFUTED for the unchanged code (one signer counted under several spellings; application restored before the check; Reset "
+         "failing midway) with witnesses replayed on the real core/Node on every run, and PROVED for the repaired rule (distinct known signers, check before "
+         "restore). Tied to the code by a mutation grammar over valid (block, frame, snapshot) triples from honest histories applied to victims in 5 states and to real Nodes",
+         "21 theorems, no axioms; ECDSA outcomes, SHA256 ordinals and the outcome of Hashgraph.Reset are data observed by the harness; the rule implemented by the tree "
+         "(unchanged / each of the three repairs) is detected and reported; open defects are listed in KNOWN_FINDINGS.json",
+         "Coq decision-rule theorems + refutation witnesses + mutation-grammar correspondence (core and node level) + implementation oracle"),
+ "C14": ("Proved in Coq that the unchanged decision is blind to everything the node knows (C14_decision_ignores_node_state) and REFUTED that strangers are refused: a "
+         "self-made validator set signed by itself is adopted, and at node level wins over honest answers by its block index (witness replayed on real cores and Nodes "
+         "on every run). For the repaired rule (only signers of a set the node already knows are counted) proved: no response endorsed only by strangers is adopted; "
+         "an adopted response carries more than TrustCount distinct known members' signatures. Forged responses (1/2/4 strangers, with/without honest events and "
+         "peer-set history, respelled single signer, forged index) against victims in 5 states and real Nodes",
+         "7 theorems, no axioms; known sets = configured peers, genesis peers, validators, store peer sets; the repair's residual (a KNOWN validator shrinking the set to "
+         "itself; stale peers.json refusing honest responses after many joins) is stated in FINDINGS.md",
+         "Coq decision-rule theorems + refutation witnesses + forged-response correspondence + implementation oracle"),
  "C16": ("Store model (LRU, RollingIndex with roll, InmemStore, BadgerStore as cache+DB) proved to refine a plain map for all operation sequences and all cache "
          "sizes under the admission discipline, also across reopen; cache coherence unconditionally; listings exact; the deviations of the real store from a "
          "plain map are proved as refutation witnesses (W1-W5). Tied to the code by replaying every operation of generated sequences on the real BadgerStore",
